@@ -179,7 +179,9 @@ def _objective(eng, st, f, args, kwargs, node):
     _havoc_flags(eng, st)
     c = st.decide(4, "objective")
     if c == 0:
-        return SV(KVal, st.fresh("objective_value", val_sort()))
+        v = st.fresh("objective_value", val_sort())
+        st.assume(val_wf(v, st.nref))
+        return SV(KVal, v)
     cls = {1: _oe.TrialPruned, 2: _UserError, 3: KeyboardInterrupt}[c]
     from pyvc.state import PyRaise, PyExc
     raise PyRaise(PyExc(cls, where="objective"))
